@@ -52,7 +52,7 @@ class DBusProperty:
             instance._getProperty('', self.pname)
 
         if self.key is None:
-            self.key = self.interface + self.pname
+            self.key = (self.interface, self.pname)
 
         return instance._dbusProperties.get(self.key, None)
 
@@ -66,7 +66,7 @@ class DBusProperty:
             instance._getProperty('', self.pname)
 
         if self.key is None:
-            self.key = self.interface + self.pname
+            self.key = (self.interface, self.pname)
 
         instance._dbusProperties[self.key] = value
 
